@@ -701,4 +701,59 @@ theorem parseStr_prefix_isIncomplete (ip6 : B → Ip6 → Prop)
   obtain ⟨e, he, hinc⟩ := parseStr_prefix_incomplete ip6 hip6 hl hlen hascii rest n hn
   rw [he]; exact hinc
 
+/-! ## Sharper forms: the exact condition on the prefix -/
+
+/-- **Streaming (`TryFrom<&str>`)**, without the (unused) US-ASCII hypothesis of
+`parseStr_prefix_incomplete`: the window of a proper prefix is the whole prefix, whose end is
+always a character boundary. -/
+theorem parseStr_prefix_incomplete' (ip6 : B → Ip6 → Prop)
+    (hip6 : ∀ s a, ip6 s a → StdNet.parseIpv6 s = some a ∧ V1.sepFree s)
+    {w : B} {addr : V1.Addresses} (hl : Spec.V1.Line ip6 w addr) (hlen : w.length ≤ 107)
+    (rest : B) (n : Nat) (hn : n < w.length) :
+    ∃ e, V1.parseStr ((w ++ rest).take n) = .error e ∧ e.isIncomplete = true := by
+  obtain ⟨e, he, hinc⟩ := parseHeader_prefix_incomplete ip6 hip6 hl hlen n hn
+  have htake : (w ++ rest).take n = w.take n := List.take_append_of_le_length (Nat.le_of_lt hn)
+  have hl' : (w.take n).length = n := by rw [List.length_take]; omega
+  have hcb : Utf8.isCharBoundary (w.take n) n = true := by
+    have := isCharBoundary_length (w.take n)
+    rwa [hl'] at this
+  have htt : (w.take n).take n = w.take n := List.take_of_length_le (by omega)
+  refine ⟨e, ?_, hinc⟩
+  rw [htake]
+  unfold parseStr
+  rw [window_prefix ip6 hip6 hl hlen n hn]
+  simp only [htt, hcb, he, Bool.not_true, Bool.false_eq_true, if_false]
+
+/-- **Streaming (`TryFrom<&[u8]>`)** under the exact condition: the prefix itself is valid UTF-8
+(the cut is on a character boundary). -/
+theorem parseBytes_prefix_incomplete' (ip6 : B → Ip6 → Prop)
+    (hip6 : ∀ s a, ip6 s a → StdNet.parseIpv6 s = some a ∧ V1.sepFree s)
+    {w : B} {addr : V1.Addresses} (hl : Spec.V1.Line ip6 w addr) (hlen : w.length ≤ 107)
+    (rest : B) (n : Nat) (hn : n < w.length) (hval : Utf8.valid ((w ++ rest).take n) = true) :
+    ∃ e, V1.parseBytes ((w ++ rest).take n) = .error e ∧ e.isIncomplete = true := by
+  obtain ⟨e, he, hinc⟩ := parseHeader_prefix_incomplete ip6 hip6 hl hlen n hn
+  have htake : (w ++ rest).take n = w.take n := List.take_append_of_le_length (Nat.le_of_lt hn)
+  have hl' : (w.take n).length = n := by rw [List.length_take]; omega
+  have htt : (w.take n).take n = w.take n := List.take_of_length_le (by omega)
+  rw [htake] at hval ⊢
+  refine ⟨.parse e, ?_, hinc⟩
+  unfold parseBytes
+  rw [window_prefix ip6 hip6 hl hlen n hn]
+  simp only [htt, hval, he, Bool.not_true, Bool.false_eq_true, if_false]
+
+/-- The complement: a proper prefix that is not valid UTF-8 (a cut inside a character) is the
+terminal `InvalidUtf8`. -/
+theorem parseBytes_prefix_invalidUtf8 (ip6 : B → Ip6 → Prop)
+    (hip6 : ∀ s a, ip6 s a → StdNet.parseIpv6 s = some a ∧ V1.sepFree s)
+    {w : B} {addr : V1.Addresses} (hl : Spec.V1.Line ip6 w addr) (hlen : w.length ≤ 107)
+    (rest : B) (n : Nat) (hn : n < w.length) (hval : Utf8.valid ((w ++ rest).take n) = false) :
+    V1.parseBytes ((w ++ rest).take n) = .error .invalidUtf8 := by
+  have htake : (w ++ rest).take n = w.take n := List.take_append_of_le_length (Nat.le_of_lt hn)
+  have hl' : (w.take n).length = n := by rw [List.length_take]; omega
+  have htt : (w.take n).take n = w.take n := List.take_of_length_le (by omega)
+  rw [htake] at hval ⊢
+  unfold parseBytes
+  rw [window_prefix ip6 hip6 hl hlen n hn]
+  simp only [htt, hval, Bool.not_false, if_true]
+
 end V1.Prefix
